@@ -13,7 +13,7 @@ from .c11 import EXPRS
 
 ID = "C14"
 LEVEL = "exploration"
-BUDGET = {"quick": 480, "thorough": 48000}
+BUDGET = {"quick": 1440, "thorough": 48000}
 TECHNIQUE = "stateful model-based testing (Hypothesis RuleBasedStateMachine) with an in-memory content model; every kind-sequence of length <= 2 enumerated explicitly; histories saved as JSON and replayed without Hypothesis"
 RULE = ("Hypothesis rule-based state machine over a pool of plotfiles: initialize = generated 3D plotfile (1-3 levels, "
         "any layout, non-zero origin, anisotropic, special floats) or, 1 in 6, the output of chk2plt on a generated checkpoint; rules = colander(src, vars, limit), chef(src, "
@@ -259,7 +259,7 @@ def compact(case):
 
 def gen_ops():
     from .. import chkgen
-    plain = plotgen.plot_specs(ndims=3, max_cells=1200, min_fields=2, max_fields=4,
+    plain = plotgen.plot_specs(thin=True, ndims=3, max_cells=1200, min_fields=2, max_fields=4,
                                payload_kinds=("coded", "random", "special")).map(lambda s: dict(op="gen", spec=s))
     from_chk = chkgen.chk_specs("quick").map(lambda c: dict(op="gen_chk", chk=c))
     return st.one_of(plain, plain, plain, plain, plain, from_chk)
